@@ -390,13 +390,14 @@ def shared_container_types(chk):
     # a bool is an int for the API: the stored value must read and print as the integer (fixed: D97)
     base = prophy.with_metaclass(prophy.struct_generator, prophy.struct)
     B = type(base)('B', (base,), {'_descriptor': [('a', prophy.u8), ('n', prophy.u8), ('v', prophy.array(prophy.u16, bound='n'))]})
+    import re
     x = B()
     x.a = True
-    x.v[:] = [True, 2]
+    x.v[:] = [True, 2, re.IGNORECASE]
     chk.count(('bool',), True)
-    if str(x) != 'a: 1\nv: 1\nv: 2\n' or type(x.a) is bool:
-        chk.property_violation({'schema': 'hand-written B{u8 a; u8 n; u16 v<@n>}', 'operation': 'a = True; v[:] = [True, 2]'},
-                               {'what': 'a bool assigned to an integer field is not stored as the integer', 'str': str(x)})
+    if str(x) != 'a: 1\nv: 1\nv: 2\nv: 2\n' or type(x.a) is bool or type(x.v[2]) is not int:
+        chk.property_violation({'schema': 'hand-written B{u8 a; u8 n; u16 v<@n>}', 'operation': 'a = True; v[:] = [True, 2, re.IGNORECASE]'},
+                               {'what': 'a bool / int subclass assigned to an integer field is not stored as the plain integer', 'str': str(x)})
 
 
 def run_c10(tier):
